@@ -9,9 +9,11 @@ import (
 	"encoding/json"
 	"fmt"
 	"os"
+	"runtime"
 	"sort"
 	"strings"
 	"sync"
+	"sync/atomic"
 	"time"
 
 	"github.com/atlassian/gostatsd"
@@ -455,7 +457,154 @@ func dispatchCancelled(n int, entries [][]string, after int) string {
 		}
 		r.mu.Unlock()
 	}
-	return "X " + strings.Join(out, " | ")
+	return "X " + strings.Join(out, " | ") + " || " + dispatchAcrossFlush(n, entries)
+}
+
+// gated is a recorder whose ReceiveMap waits for `gate` (when it has one) and that counts the calls it has finished.
+type gated struct {
+	recorder
+	gate     chan struct{}
+	entered  atomic.Int64
+	finished atomic.Int64
+}
+
+func (g *gated) ReceiveMap(mm *gostatsd.MetricMap) {
+	g.entered.Add(1)
+	if g.gate != nil {
+		<-g.gate
+	}
+	g.recorder.ReceiveMap(mm)
+	g.finished.Add(1)
+}
+
+// restingIn reports whether some goroutine is blocked (select / chan send) with `frame` on its stack.
+func restingIn(frame string) bool {
+	buf := make([]byte, 1<<20)
+	n := runtime.Stack(buf, true)
+	for _, g := range strings.Split(string(buf[:n]), "\n\n") {
+		if strings.Contains(g, frame) && (strings.Contains(g[:strings.IndexByte(g+"\n", '\n')], "[select") || strings.Contains(g[:strings.IndexByte(g+"\n", '\n')], "[chan send")) {
+			return true
+		}
+	}
+	return false
+}
+
+// dispatchAcrossFlush: the routing is the same before and after a flush, whatever the workers were doing when the
+// flush arrived.  Buffered queues; the worker of the lowest non-empty shard is held in its first ReceiveMap while the
+// batch is dispatched three times (so its queue is two deep and every other queue drains); then a flush (Process)
+// arrives, the held worker is released, the flush completes, and every series is dispatched alone.  Worker w must
+// have been handed exactly the series routed to w: three times in the batches, once alone.
+func dispatchAcrossFlush(n int, entries [][]string) string {
+	mm0, keys := build(entries)
+	if n < 2 || len(keys) == 0 {
+		return "F -"
+	}
+	held := n
+	has := make([]bool, n)
+	for _, k := range keys {
+		var b int
+		fmt.Sscan(k[2], &b)
+		if b >= 0 && b < n {
+			has[b] = true
+			if b < held {
+				held = b
+			}
+		}
+	}
+	_ = mm0
+	if held == n {
+		return "F -"
+	}
+	recs := []*gated{}
+	factory := statsd.AggregatorFactoryFunc(func() statsd.Aggregator {
+		r := &gated{}
+		if len(recs) == held {
+			r.gate = make(chan struct{})
+		}
+		recs = append(recs, r)
+		return r
+	})
+	bh := statsd.NewBackendHandler(nil, 1, n, 4, factory)
+	ctx, cancel := context.WithCancel(context.Background())
+	defer cancel()
+	go bh.Run(ctx)
+	for i := 0; i < 3; i++ {
+		mm, _ := build(entries)
+		bh.DispatchMetricMap(ctx, mm)
+	}
+	// every other worker has drained its queue, the held one is inside its first call
+	// (or nothing has moved for 30 ms: on a tree that routes differently the expected counts are never reached; this
+	// wait only prepares the situation and decides no output)
+	until := time.Now().Add(10 * time.Second)
+	lastSum, lastMove := int64(-1), time.Now()
+	for time.Now().Before(until) {
+		settled := recs[held].entered.Load() >= 1
+		sum := int64(0)
+		for w, r := range recs {
+			if w != held && has[w] && r.finished.Load() < 3 {
+				settled = false
+			}
+			sum += r.entered.Load() + r.finished.Load()
+		}
+		if sum != lastSum {
+			lastSum, lastMove = sum, time.Now()
+		}
+		if settled || time.Since(lastMove) > 30*time.Millisecond {
+			break
+		}
+		time.Sleep(200 * time.Microsecond)
+	}
+	flushed := make(chan struct{})
+	go func() {
+		bh.Process(ctx, func(int, statsd.Aggregator) {})()
+		close(flushed)
+	}()
+	// the flush has reached the point where it waits for the held worker (no output depends on this wait)
+	until = time.Now().Add(500 * time.Millisecond)
+	for time.Now().Before(until) && !restingIn("statsd.(*BackendHandler).Process") {
+		time.Sleep(200 * time.Microsecond)
+	}
+	close(recs[held].gate)
+	<-flushed
+	handed := int64(0) // maps handed to workers so far: three per non-empty shard, then one per series
+	for _, h := range has {
+		if h {
+			handed += 3
+		}
+	}
+	for _, e := range entries {
+		if len(e) == 5 {
+			one, _ := build([][]string{e})
+			bh.DispatchMetricMap(ctx, one)
+			handed++
+		}
+	}
+	// with buffered queues a flush is no barrier (a worker may take the command before the maps still queued for it):
+	// wait until as many maps have been received, by whichever workers, as were handed over
+	until = time.Now().Add(5 * time.Second)
+	for time.Now().Before(until) {
+		got := int64(0)
+		for _, r := range recs {
+			got += r.finished.Load()
+		}
+		if got >= handed {
+			break
+		}
+		time.Sleep(200 * time.Microsecond)
+	}
+	bh.Process(ctx, func(int, statsd.Aggregator) {})()
+	out := make([]string, n)
+	for i, r := range recs {
+		r.mu.Lock()
+		sort.Strings(r.seen)
+		if len(r.seen) == 0 {
+			out[i] = "-"
+		} else {
+			out[i] = strings.Join(r.seen, " ; ")
+		}
+		r.mu.Unlock()
+	}
+	return "F " + strings.Join(out, " | ")
 }
 
 func main() {
